@@ -215,6 +215,17 @@ fn scenarios(rng: &mut Rng, thorough: bool) -> Vec<Scenario> {
         ch.push(Chunk::new(b"IEND", vec![]));
         v.push(Scenario { name: "apng-bomb-behind-frames".into(), file: assemble(&ch) });
     }
+    // a wide canvas whose first animation frame is tiny and whose later frame spans the canvas: every frame's row buffers must be charged
+    for (w, il) in [(8_000_000u32, 0u8), (3_000_000, 1)] {
+        let fctl = |seq: u32, fw: u32, fh: u32| { let mut d = seq.to_be_bytes().to_vec(); d.extend_from_slice(&fw.to_be_bytes()); d.extend_from_slice(&fh.to_be_bytes()); d.extend_from_slice(&[0; 8]); d.extend_from_slice(&[0, 1, 0, 10, 0, 0]); Chunk::new(b"fcTL", d) };
+        let mut ch = vec![ihdr(w, 2, 8, 2, il), Chunk::new(b"acTL", [2u32.to_be_bytes(), 0u32.to_be_bytes()].concat())];
+        ch.push(fctl(0, 1, 1));
+        ch.push(Chunk::new(b"IDAT", zeros_z(4)));
+        ch.push(fctl(1, w, 2));
+        let mut d = 2u32.to_be_bytes().to_vec(); d.extend(zeros_z(2 * (1 + 3 * w as usize) + 64)); ch.push(Chunk::new(b"fdAT", d));
+        ch.push(Chunk::new(b"IEND", vec![]));
+        v.push(Scenario { name: format!("apng-tiny-first-frame-wide-canvas-{}-i{}", w, il), file: assemble(&ch) });
+    }
     // random valid files (control group: the bound must not be violated by ordinary images either)
     for _ in 0..(if thorough { 60 } else { 12 }) {
         let b = valid_file(rng, &GenOpts { maxw: 300, maxh: 200, anc: true, animated: None });
